@@ -173,8 +173,11 @@ class Gen:
         self.ns, self.rng, self.refchoice, self.maxdim, self.np_forms = ns, rng, refchoice, maxdim, np_forms
         self.shorter_strings = True
 
-    def shape(self, tx):
-        return [d if d >= 0 else max(self.mindim, self.rng.choice([0, 1, 1, 2, 2, 3][: self.maxdim + 3])) for d in tx["sh"]]
+    def shape(self, tx, inarr=False):
+        sh = [d if d >= 0 else max(self.mindim, self.rng.choice([0, 1, 1, 2, 2, 3][: self.maxdim + 3])) for d in tx["sh"]]
+        if inarr and len(sh) > 1:      # inside a list only nested lists are a promised form, and they lose the rank when a leading extent is 0
+            sh = [max(d, 1) if (i < len(sh) - 1 and tx["sh"][i] < 0) else d for i, d in enumerate(sh)]
+        return sh
 
     def value(self, tx, b=None, like=None, _top=True, _inarr=False):
         """like: an existing input-form value whose every dynamic size must be kept (fitting assignment)"""
@@ -195,7 +198,7 @@ class Gen:
             vs = [self.value(f, b, None if like is None else like[i], False, _inarr) for i, f in enumerate(tx["f"])]
             return [v[0] for v in vs], {self.ns.fname(i): v[1] for i, v in enumerate(vs)}
         if k == "arr":
-            sh = list(like["sh"]) if like is not None else self.shape(tx)
+            sh = list(like["sh"]) if like is not None else self.shape(tx, _inarr)
             n = int(np.prod(sh))
             vs = [self.value(tx["it"], b, None if like is None else like["it"][i], False, True) for i in range(n)]
             inp = {"sh": sh, "it": [v[0] for v in vs]}
@@ -210,7 +213,7 @@ class Gen:
                     big[tuple(slice(None, None, 2) for _ in sh)] = a
                     a = big[tuple(slice(None, None, 2) for _ in sh)]
                 return inp, a
-            if len(sh) > 1 and (n == 0 or not is_static(it)):
+            if len(sh) > 1 and ((n == 0 and 0 in sh[:-1]) or not is_static(it)) and not (_inarr and is_static(it)):
                 o = np.empty(sh, dtype=object)          # nested lists cannot express these (rank not inferable / not accepted)
                 for i, idx in enumerate(np.ndindex(*sh)):
                     o[idx] = vs[i][1]
